@@ -369,10 +369,10 @@ func runC05(c *eng.Ctx, thorough bool) {
 	c.Clause("R1", "C05.5")
 	if m, miss := c.P.StaticCallee("vault.(*ExpirationManager).Restore"); len(miss) == 0 {
 		c.CallerTable("ExpirationManager.Restore", c.P.FindCalls(m, nil), map[string]string{
-			"vault.(*Core).setupExpiration":       "post-unseal / leadership",
-			"vault.(*Core).namespaceSetup":        "namespace unseal",
+			"vault.(*Core).setupExpiration":           "post-unseal / leadership",
+			"vault.(*Core).namespaceSetup":            "namespace unseal",
 			"vault.(*NamespaceStore).unsealNamespace": "namespace unseal",
-			"vault.(*SealManager).UnsealNamespace": "namespace unseal",
+			"vault.(*SealManager).UnsealNamespace":    "namespace unseal",
 		}, 1)
 	}
 
